@@ -1018,9 +1018,88 @@ func (w *windowSM) CurrentBBSeatID() int {
 	w.hit("CurrentBBSeatID")
 	return w.SeatManager.CurrentBBSeatID()
 }
+func (w *windowSM) UpdatePlayerHasChips(id string, has bool) error {
+	w.hit("UpdatePlayerHasChips")
+	return w.SeatManager.UpdatePlayerHasChips(id, has)
+}
 func (w *windowSM) Seats() map[int]*seat_manager.SeatPlayer {
 	w.hit("Seats")
 	return w.SeatManager.Seats()
+}
+
+// addonWindowCase: PlayerRedeemChips takes no engine lock and talks to the seat manager in the middle; a second top-up of
+// the same player (a re-buy through PlayerReserve, or another add-on) is made at exactly that point. Both return nil:
+// both amounts are in the bankroll afterwards.
+func addonWindowCase(r *rand.Rand, st *ccStats, hid int) string {
+	var w strings.Builder
+	line := func(format string, a ...interface{}) { fmt.Fprintf(&w, format+"\n", a...) }
+	n := 2 + r.Intn(4)
+	setting := pokertable.TableSetting{
+		TableID: fmt.Sprintf("a%d", hid),
+		Meta: pokertable.TableMeta{CompetitionID: "c", Rule: pokertable.CompetitionRule_Default, Mode: pokertable.CompetitionMode_CT, MaxDuration: 1000000,
+			TableMaxSeatCount: 9, TableMinPlayerCount: 2, MinChipUnit: 10, ActionTime: 7},
+		Blind: pokertable.TableBlindState{Level: 1, Ante: 0, Dealer: 0, SB: 10, BB: 20},
+	}
+	for i := 0; i < n; i++ {
+		setting.JoinPlayers = append(setting.JoinPlayers, pokertable.JoinPlayer{PlayerID: pid(i + 1), RedeemChips: 1000, Seat: i})
+	}
+	rig, err := NewRig(setting, NewRecBackend(), 0)
+	if err != nil {
+		return ""
+	}
+	defer rig.abandon()
+	st.Histories++
+	st.Windows++
+	who := 1 + r.Intn(n)
+	c1 := int64(10 * (1 + r.Intn(50)))
+	c2 := int64(10 * (1 + r.Intn(50)))
+	second := []string{"rebuy", "addon"}[r.Intn(2)]
+	var secondErr error
+	wsm := &windowSM{at: 1}
+	wsm.act = func() {
+		if second == "rebuy" {
+			secondErr = rig.te.PlayerReserve(pokertable.JoinPlayer{PlayerID: pid(who), RedeemChips: c2, Seat: -1})
+		} else {
+			secondErr = rig.te.PlayerRedeemChips(pokertable.JoinPlayer{PlayerID: pid(who), RedeemChips: c2})
+		}
+	}
+	rig.hk.WrapSeatManager(func(inner seat_manager.SeatManager) seat_manager.SeatManager {
+		wsm.SeatManager = inner
+		return wsm
+	})
+	wsm.mu.Lock()
+	wsm.armed = true
+	wsm.mu.Unlock()
+	firstErr := rig.te.PlayerRedeemChips(pokertable.JoinPlayer{PlayerID: pid(who), RedeemChips: c1})
+	wsm.mu.Lock()
+	wsm.armed = false
+	where := wsm.where
+	wsm.mu.Unlock()
+	bank := int64(-1)
+	for _, p := range rig.live().State.PlayerStates {
+		if p.PlayerID == pid(who) {
+			bank = p.Bankroll
+		}
+	}
+	line("cc new h=%d kind=addon-window players=%d", hid, n)
+	line("cc addonwindow first=%s:%d second=%s:%d:%s at=%s bankroll=%d", strings.ReplaceAll(tbErrName(firstErr), " ", "_"), c1, second, c2,
+		strings.ReplaceAll(tbErrName(secondErr), " ", "_"), where, bank)
+	if where != "" {
+		st.WindowsHit++
+		want := int64(1000)
+		if firstErr == nil {
+			want += c1
+		}
+		if secondErr == nil {
+			want += c2
+		}
+		if bank != want {
+			line("cc anomaly C01.chips-brought-in-by-overlapping-top-ups-are-missing want=%d bankroll=%d", want, bank)
+			st.Anomalies++
+		}
+	}
+	line("cc end")
+	return w.String()
 }
 
 // windowCase: a call that takes no engine lock (a reserved player sits in, a top-up, a blind update) is made at a chosen
@@ -1333,7 +1412,11 @@ func runConcChild(args []string) {
 	}
 	for i := 0; i < *nw; i++ {
 		hid++
-		write(windowCase(r, st, hid))
+		if i%4 == 3 {
+			write(addonWindowCase(r, st, hid))
+		} else {
+			write(windowCase(r, st, hid))
+		}
 	}
 	if *statsFile != "" {
 		b, _ := json.Marshal(st)
